@@ -265,6 +265,15 @@ def padding_padonly_counter():
     h.update(m)
     return h.update(b'', padding=True) == Blake(256)(m)
 
+def nextperm_empty():
+    from crysp.utils.perms import nextperm
+    return _exc(nextperm, []) is None and nextperm([]) == [] and nextperm([7]) == [7]
+
+def exactsum_skips_first():
+    from crysp.utils.knapsack import exactsum
+    l = [('a', 1), ('b', 3)]
+    return exactsum(l, 3) == [('b', 3)] and exactsum(l, 4) in ([('b', 3), ('a', 1)], [('a', 1), ('b', 3)]) and exactsum(l, 2) is False
+
 ALL = [v for k, v in list(globals().items()) if callable(v) and not k.startswith('_') and getattr(v, '__module__', None) == '__main__']
 
 if __name__ == '__main__':
